@@ -1033,6 +1033,12 @@ class StrategyBase(Node):
         """
         Close all child positions.
         """
+        # sub-strategies liquidate their own children first (as close() does), so that every
+        # position is closed exactly rather than through a weighted allocation
+        for c in self._childrenv:
+            if not c._issec and c.children is not None and len(c.children) != 0:
+                c.flatten()
+
         # go right to base alloc
         if self.fixed_income:
             [c.transact(-c.position, update=False) for c in self._childrenv if c.position != 0]
